@@ -180,4 +180,6 @@ class InternalHandleRequest(Contract):
         return ghost_same_log(g, old.g)
     at_exit_if_unbound = [("operation_result", rejected_requests_never_reach_the_device)]
     ensures = [reply_has_integer_errorcode, gate]
-    raises = {PERR: Exc(args=[STR_]), PINT: Exc()}
+    def device_outside_protocol_or_repair(g, old): return field(old.self, "_comm_issue") or classify(g) == K_OTHER
+    def only_during_repair(old): return field(old.self, "_comm_issue")
+    raises = {PERR: Exc(args=[STR_], post=[device_outside_protocol_or_repair]), PINT: Exc(post=[only_during_repair])}
